@@ -11,9 +11,9 @@ import random
 from harness import gridlib, tlc
 
 FAMILY = {
-    "C01": ("c01_", ("P", "PAIR", "ZONE", "CM")),
-    "C02": ("c02_", ("P", "IRT", "STA", "CM")),
-    "C10": ("c10_", ("P", "PAIR", "IRT", "CM")),
+    "C01": ("c01_", ("P", "PAIR", "ZONE", "CM", "TM")),
+    "C02": ("c02_", ("P", "IRT", "STA", "CM", "TM")),
+    "C10": ("c10_", ("P", "PAIR", "IRT", "CM", "TM")),
 }
 
 
@@ -76,6 +76,31 @@ def build(world, strata, prop, quick, rnd):
                         continue
                 prj = ("utm", gc.utm) if (i + j) % 3 else world.rand_prj()
                 evs.append(world.cm_event(t, [1, 17, 30, 31, 55, 60][(i + j) % 6], ell, prj, "cm"))
+    if "TM" in kinds:
+        # off the central meridian: Pythagorean latitude x Pythagorean longitude difference, exact TM oracle (KruegerTM)
+        lat_tris = [(0, 1, 1), (3, 4, 5), (4, 3, 5), (5, 12, 13), (12, 5, 13), (8, 15, 17), (15, 8, 17), (7, 24, 25), (24, 7, 25),
+                    (20, 21, 29), (9, 40, 41), (40, 9, 41), (11, 60, 61)]
+        lat_tris = [t for t in lat_tris if math.degrees(math.atan2(t[0], t[1])) <= 83.9]
+        lat_tris += [(-p, q, r) for (p, q, r) in lat_tris if p and math.degrees(math.atan2(p, q)) <= 79.9]
+        dl_tris = [(5, 12, 13), (8, 15, 17), (7, 24, 25), (9, 40, 41), (11, 60, 61), (12, 35, 37), (13, 84, 85), (33, 544, 545),
+                   (65, 2112, 2113), (1, 1000, 0)]
+        dl_tris = [(1, 0, 1) if t == (1, 1000, 0) else t for t in dl_tris][:-1]
+        dl_tris += [(-p, q, r) for (p, q, r) in dl_tris]
+        ellc = ["grs80", "wgs84", "ans", "intl24", "rand", "rand"]
+        m = 0
+        for i, t in enumerate(lat_tris):
+            for j, d in enumerate(dl_tris):
+                m += 1
+                if quick and m % (6 if prop == "C01" else 9):
+                    continue
+                ell = world.get_ell(ellc[(i + j) % 6])
+                prj = ("utm", gc.utm) if (i + j) % 3 else world.rand_prj()
+                zone = [2, 17, 30, 31, 44, 59][(i * 3 + j) % 6]
+                cmz = zone * 6 - 183
+                lonv = cmz + math.degrees(math.atan2(d[0], d[1]))
+                if not (-180 <= lonv < 180):
+                    zone = 30
+                evs.append(world.tm_event(t, d, zone, ell, prj, "tm"))
     if "ZONE" in kinds:
         step = 7 if quick else 1
         for pr in (("utm", gc.utm), ("zw8", gc.Projection(500000, 10000000, 0.9996, 8, -176))):
@@ -131,16 +156,16 @@ def run_family(ctx, prop):
     for (i, l, clause) in fails:
         ev = traces[i]["ev"][0]
         mine = clause.startswith(prefix) or clause.startswith("stuck") or \
-            (clause.endswith("_raised") and ((prop == "C01" and ev["k"] in ("P", "PAIR", "ZONE", "CM")) or (prop == "C02" and ev["k"] in ("IRT", "STA"))))
+            (clause.endswith("_raised") and ((prop == "C01" and ev["k"] in ("P", "PAIR", "ZONE", "CM", "TM")) or (prop == "C02" and ev["k"] in ("IRT", "STA"))))
         if not mine:
             other[clause] = other.get(clause, 0) + 1
             continue
         desc = {"clause": clause, "kind": ev["k"]}
         if ev["k"] == "PAIR":
             desc["rel"] = ev["rel"]
-        if clause == "oracle_start_value":
-            raise tlc.MachineryError("Newton start value for the third flattening did not verify")
-        if ev["k"] in ("P", "IRT", "CM"):
+        if clause in ("oracle_start_value", "oracle_residuals"):
+            raise tlc.MachineryError("in-spec oracle did not verify its own Newton results (%s)" % clause)
+        if ev["k"] in ("P", "IRT", "CM", "TM"):
             desc["prj"] = ev["o"].get("prj", {}).get("name")
         if clause == "c02_closure_geo_lon_literal":
             # literal 2e-9 deg clause: inside the documented output-rounding envelope iff the envelope clause holds
@@ -155,7 +180,7 @@ def run_family(ctx, prop):
         ctx.actions[e["k"] + (":" + e["rel"] if e["k"] == "PAIR" else "")] = ctx.actions.get(e["k"] + (":" + e["rel"] if e["k"] == "PAIR" else ""), 0) + 1
     for e in evs[:1] + evs[len(evs) // 2:len(evs) // 2 + 1] + evs[-1:]:
         ctx.sample({"kind": e["k"], "rel": e.get("rel"), "case": gridlib.describe_event(e)})
-    ctx.extra["binding_selftest"] = selftest(world, prop)
+    ctx.selftest(selftest, world, prop)
     return evs
 
 
